@@ -325,6 +325,20 @@ pub fn run(opts: &Opts) -> Report {
                     );
                     let after = ts.frames();
                     let appended: Vec<&Value> = after[before.len()..].iter().collect();
+                    // oracle (as for auto above): with every cut point of the stride already carrying a
+                    // checkpoint frame the schedule has nothing to do and appends nothing - whatever
+                    // else is going on in the thread (an unfinished job, a dry run, blocking or not)
+                    if let Ok(resp) = &r {
+                        let st = resp.stride_messages.max(1) as usize;
+                        let msg_seqs: Vec<u64> = thread_frames.iter().filter(|f| f["type"] == "continuity_message_appended").filter_map(|f| f["seq"].as_u64()).collect();
+                        let all_done = msg_seqs.iter().enumerate().filter(|(i, _)| (i + 1) % st == 0).all(|(_, q)| thread_frames.iter().any(|f| f["type"] == "continuity_compaction_checkpoint_created" && f["to_seq"].as_u64() == Some(*q)));
+                        if all_done {
+                            rep.count("schedule_with_nothing_to_do");
+                            if !appended.is_empty() {
+                                rep.oracle_failure("C09|schedule-appended-with-nothing-to-do", &format!("every cut point of stride {st} has a checkpoint frame, yet auto_schedule (decision {}) appended {} frame(s)", resp.decision, appended.len()), json!({"case": case_no, "stride": stride, "block_on_inflight": b1, "execute": b2, "dry_run": b3, "appended": show_appended(&appended)}));
+                            }
+                        }
+                    }
                     let impl_line = match r {
                         Err(e) => format!("err {e}"),
                         Ok(resp) => format!(
